@@ -468,6 +468,23 @@ def run_pipeline(prop, spec, tier, seed, findings, label):
                     if again:
                         break
                 if confirmed is None:
+                    # the failure may depend on what earlier scenarios left behind in the process (pools, caches):
+                    # re-run the scenario together with the ones before it, again in a fresh process
+                    b0, ev0, scn0 = items[0]
+                    idx = next((k for k, x in enumerate(scs) if x.get("scn") == scn0.get("scn")), None)
+                    if idx is not None and idx > 0:
+                        window = [dict(x) for x in scs[max(0, idx - spec.get("confirm_window", 300)):idx + 1]]
+                        cb, _, _, _, ctrace, _ = exec_and_judge(scratch, spec, window, seed, "confirmw", race=race)
+                        cev = load_events(ctrace)
+                        for r in cb:
+                            if r["scn"] == scn0.get("scn") and clause in clauses_for(prop, r):
+                                e2 = cev[r["line"] - 1]
+                                e2["_info"] = r.get("info", {})
+                                fd2 = match_finding(prop, clause, e2, scn0, findings)
+                                if (fd2["id"] if fd2 else None) == fid:
+                                    confirmed = (dict(scn0, _with_predecessors=window[:-1]), e2, r)
+                                    break
+                if confirmed is None:
                     unreproduced.append({"clause": clause, "scn": items[0][2].get("scn"), "event": items[0][1]})
                     continue
                 if fid is not None:
@@ -584,13 +601,15 @@ def replay(path):
     spec = pipelines_of(REGISTRY[prop])[r.get("pipe", 0)]
     scratch = prepare_scratch(spec["modules"])
     try:
-        bad, _, _, _, trace_file, _ = exec_and_judge(scratch, spec, [r["scenario"]], r.get("seed", 1), "replay",
+        target = dict(r["scenario"])
+        pred = target.pop("_with_predecessors", [])
+        bad, _, _, _, trace_file, _ = exec_and_judge(scratch, spec, list(pred) + [target], r.get("seed", 1), "replay",
                                                      race=bool(spec.get("race")))
         evs = load_events(trace_file)
         hit = False
         for b in bad:
             cs = clauses_for(prop, b)
-            if r["clause"] in cs:
+            if r["clause"] in cs and b["scn"] == target.get("scn", b["scn"]):
                 hit = True
                 log("failing event: %s" % json.dumps(evs[b["line"] - 1])[:600])
         if hit:
